@@ -20,6 +20,9 @@ TRUSTED_BASE = [
     "harness: tools/props/c18.py, tools/vlib/sfgen.py; gaussian backend used as the oracle for 'computes the same thing'",
     "networkx is_isomorphic (library) is observed, not modelled",
 ]
+MANIFEST_TEXT = ("Proved: Program.__eq__ (model of the repaired comparison) returns True only for structurally identical programs (every command, class, "
+                 "parameters, modes, dagger flag, lengths), is reflexive and symmetric; swapping adjacent independent commands leaves the dependency DAG — hence "
+                 "program_equivalence's verdict — unchanged. That 'equivalent' implies 'same state' is checked by search (two recorded findings: mode relabelling).")
 ASSUMPTIONS = ["parameters are numeric in generated pairs; '==' on them is modelled by equality of value ids"]
 
 NAMES = sorted(sfgen.ALL)
